@@ -796,6 +796,10 @@ def every_declaration_reaches_the_groups(F, res, rule="Q6"):
     calls = list(f.calls())
     start = [b for b, t in calls if FL.short(callee(t) or callee_def(t) or "") == "ModuleScope::declarations"]
     chain = set(start)
+    # the chain ends where the functions are collected: what is done with the collection afterwards (`own.iter().position(..)` to find a
+    # callee among them) is not a selection among the declarations
+    TERMINAL = ("collect", "from_iter", "extend", "for_each", "count", "fold", "sum", "unzip", "partition")
+    open_ = set(start)
     changed = True
     while changed:
         changed = False
@@ -804,8 +808,10 @@ def every_declaration_reaches_the_groups(F, res, rule="Q6"):
                 continue
             o = d.origin_op(t["args"][0], ("Deref>::deref", "IntoIterator>::into_iter", "::by_ref"))
             srcs = [o] if o.get("k") != "multi" else [{"k": "call", "bb": dd[0]} for dd in o.get("defs", []) if dd[2] == "call"]
-            if any(x.get("k") == "call" and x.get("bb") in chain for x in srcs):
+            if any(x.get("k") == "call" and x.get("bb") in open_ for x in srcs):
                 chain.add(b)
+                if FL.short(callee(t) or callee_def(t) or "").rsplit("::", 1)[-1] not in TERMINAL:
+                    open_.add(b)
                 changed = True
     loops = [f.natural_loop(tl, hd) for tl, hd in f.back_edges()]
     bad, names = [], []
